@@ -1005,4 +1005,13 @@ def finish(prop, tier, seed, units, results, ledger, findings, fixed, pmeta, arg
 
 
 if __name__ == "__main__":
-    sys.exit(main())
+    try:
+        rc = main()
+    except SystemExit:
+        raise
+    except BaseException as e:      # an internal error of the checker is never a verdict about /repo
+        import traceback
+        traceback.print_exc()
+        print("UNDECIDED   internal error of the checker: %r" % (e,), flush=True)
+        rc = 2
+    sys.exit(rc)
